@@ -57,6 +57,7 @@ Definition eval_rhs (e : shenv) (r : rhs) : option bytes :=
           Some (bool_text (match op with LAnd => (a =? 1)%Z && (b =? 1)%Z | LOr => (a =? 1)%Z || (b =? 1)%Z end))
       | _, _ => None
       end
+  | RStrLen n => Some (dec_Z (Z.of_nat (length (sh_get n e))))      (* ${#n}: bytes, the script sets LC_ALL=C *)
   | _ => None
   end.
 
